@@ -51,7 +51,7 @@ import (
 
 func TestMain(m *testing.M) { ev.Main(m) }
 
-var rec = ev.For("C33", "browse queries (node x direction x reference type x includeSubtypes x class mask) against namespace 0 and rapid-generated namespaces (20-60 nodes, up to four custom reference types whose node ids are numeric, string, GUID, opaque, or numeric ids equal to namespace-0 reference type ids); non-trivial = the unfiltered reference list of the node has at least 2 references and the expected result is a non-empty proper subset of it; distinct by hash of (node, unfiltered reference multiset, query)")
+var rec = ev.For("C33", "browse queries (node x direction x reference type x includeSubtypes x class mask) against namespace 0, a server.MapNamespace and rapid-generated namespaces (20-60 nodes, up to four custom reference types whose node ids are numeric, string, GUID, opaque, or numeric ids equal to namespace-0 reference type ids); non-trivial = the unfiltered reference list of the node has at least 2 references and the expected result is a non-empty proper subset of it; distinct by hash of (node, unfiltered reference multiset, query)")
 
 // ---------------------------------------------------------------------------
 // case data
@@ -270,9 +270,10 @@ func contains(xs []string, s string) bool {
 // fixture
 
 type fixture struct {
-	srv *stack.Server
-	cli *opcua.Client
-	ns0 []uint32 // numeric ids of all namespace-0 nodes
+	srv   *stack.Server
+	cli   *opcua.Client
+	ns0   []uint32 // numeric ids of all namespace-0 nodes
+	mapNS uint16   // index of an added server.MapNamespace with three keys
 }
 
 var (
@@ -309,6 +310,12 @@ func getFixture() (*fixture, error) {
 		if fixErr != nil {
 			return
 		}
+		// the other kind of added namespace the server package offers
+		mns := server.NewMapNamespace(fix.srv.S, "c33map")
+		mns.Mu.Lock()
+		mns.Data["alpha"], mns.Data["beta"], mns.Data["gamma"] = int32(1), "two", 3.0
+		mns.Mu.Unlock()
+		fix.mapNS = mns.ID()
 		fix.cli, fixErr = stack.Connect(fix.srv.URL, opcua.SecurityMode(ua.MessageSecurityModeNone), opcua.RequestTimeout(120*time.Second))
 		if fixErr != nil {
 			return
@@ -553,6 +560,10 @@ func (w *world) queryNode(q query) (*ua.NodeID, error) {
 		return ua.NewNumericNodeID(0, q.NID), nil
 	case "genobjects":
 		return ua.NewNumericNodeID(w.ns.ID(), id.ObjectsFolder), nil
+	case "mapobjects":
+		return ua.NewNumericNodeID(w.f.mapNS, id.ObjectsFolder), nil
+	case "maproot":
+		return ua.NewNumericNodeID(w.f.mapNS, id.RootFolder), nil
 	case "custom":
 		if v, ok := w.custom[q.NName]; ok {
 			return v, nil
@@ -996,6 +1007,7 @@ func TestBrowseNS0(t *testing.T) {
 		nodes = append(nodes, target{g, query{NKind: "gen", NIdx: gi}})
 	}
 	nodes = append(nodes, target{ua.NewNumericNodeID(w.ns.ID(), id.ObjectsFolder), query{NKind: "genobjects"}})
+	nodes = append(nodes, target{ua.NewNumericNodeID(f.mapNS, id.ObjectsFolder), query{NKind: "mapobjects"}}, target{ua.NewNumericNodeID(f.mapNS, id.RootFolder), query{NKind: "maproot"}})
 	x := int(ev.Seed())
 	for _, tg := range nodes {
 		node := tg.node
